@@ -1729,6 +1729,15 @@ def c20_case(spec, res, batch, tag, dot_texts):
                 continue
             dst = c
         got.append((dst, src))
+        if len(getattr(g, "edge_clusters", [])) == len(g.edges):
+            # an edge statement inside a subgraph pulls both end nodes into that cluster: it has to be written in the body
+            # of the scheduler that owns the requiring job (the top-level body for the jobs of the top-level scheduler)
+            where = g.edge_clusters[g.edges.index((a, b, attrs))]
+            owner = next((s for s in scheds if dst in spec["mem"].get(s, [])), None)
+            w = by_id.get(where[len("cluster_"):]) if where else scheds[0] if scheds else None
+            if owner is not None and w != owner and not (where is None and owner == 0):
+                res.violations.append(("the edge for '%s requires %s' is written inside %s, not in the body of scheduler %s"
+                                       % (dst, src, where or "the top-level graph", owner), case))
     if sorted(got) != sorted(want_edges):
         res.violations.append(("edges %s are not exactly the requirements %s" % (sorted(got), sorted(want_edges)), case))
     used = {by_id.get(a) for a, b, _ in g.edges} | {by_id.get(b) for a, b, _ in g.edges}
